@@ -193,4 +193,131 @@ theorem applyScriptsAux_text (fuel : Nat) (dom : Str) (tpls : List (Str × Str))
   | succ n =>
     rw [applyScriptsAux_succ, splitFirst_none.2 hx]
 
+
+/-! ### the whole stream -/
+
+theorem substHole_ok {I : List Nat} {c : List Seg} (hc : ∀ g ∈ c, g.ok) : ∀ {d : List Seg}, (∀ g ∈ d, g.ok) →
+    ∀ g ∈ substHole I c d, g.ok
+  | [], _ => by simp [substHole]
+  | .lit s :: gs, h => by
+    intro g hg
+    simp only [substHole, List.mem_cons] at hg
+    rcases hg with hg | hg
+    · subst hg; exact h _ (by simp)
+    · exact substHole_ok hc (d := gs) (fun g hg => h g (by simp [hg])) g hg
+  | .hole J fb :: gs, h => by
+    intro g hg
+    simp only [substHole] at hg
+    split at hg
+    · rcases List.mem_append.1 hg with hg | hg
+      · exact hc g hg
+      · exact h g (by simp [hg])
+    · simp only [List.mem_cons] at hg
+      rcases hg with hg | hg
+      · subst hg; exact h _ (by simp)
+      · exact substHole_ok hc (d := gs) (fun g hg => h g (by simp [hg])) g hg
+
+/-- substituting a hole keeps the hole ids duplicate-free when the new holes are fresh -/
+theorem nodup_subst {I : List Nat} {c d : List Seg} {R : List (List Nat)}
+    (h : (holeIds d ++ (holeIds c ++ R)).Nodup) : (holeIds (substHole I c d) ++ R).Nodup := by
+  by_cases hI : I ∈ holeIds d
+  · obtain ⟨X, fb, Z, h1, _, h3⟩ := substHole_split (c := c) hI
+    rw [h3]
+    rw [h1] at h
+    simp only [holeIds_append, holeIds, List.append_assoc] at h ⊢
+    -- h : (X ++ I :: (Z ++ (c ++ R))).Nodup ; goal (X ++ (c ++ (Z ++ R))).Nodup
+    have h' : (holeIds X ++ (holeIds Z ++ (holeIds c ++ R))).Nodup := by
+      refine List.Nodup.sublist ?_ h
+      exact List.Sublist.append (List.Sublist.refl _) (List.sublist_cons_self _ _)
+    refine (List.Perm.nodup_iff ?_).1 h'
+    refine List.Perm.append_left _ ?_
+    rw [← List.append_assoc, ← List.append_assoc]
+    exact List.Perm.append_right _ List.perm_append_comm
+  · rw [substHole_notin hI]
+    refine List.Nodup.sublist ?_ h
+    exact List.Sublist.append (List.Sublist.refl _) (List.sublist_append_right _ _)
+
+theorem free_tplOpen_segs' {gs : List Seg} (h : ∀ g ∈ gs, g.ok) : Free tplOpen (segsStr gs) := free_tplOpen_segs h
+
+/-- **the client on a stream of items**: the scripts substitute template contents for holes -/
+theorem applyScriptsAux_items : ∀ (items : List Item) (fuel : Nat) (dom acc : List Seg) (done : List Tpl),
+    (∀ i ∈ items, i.ok) → (∀ g ∈ dom, g.ok) → (∀ g ∈ acc, g.ok) →
+    (holeIds (dom ++ acc) ++ allIds items).Nodup →
+    (done.map (·.I) ++ tplIds items).Nodup →
+    countTpl items ≤ fuel →
+    applyScriptsAux fuel (segsStr dom) (tplTable done) (segsStr acc ++ itemsStr items)
+      = segsStr (clientS (dom ++ acc) items) := by
+  intro items
+  induction items with
+  | nil =>
+    intro fuel dom acc done _ _ hacc _ _ _
+    simp only [itemsStr, List.append_nil, clientS]
+    rw [applyScriptsAux_text _ _ _ _ (free_tplOpen_segs hacc), segsStr_append]
+  | cons i items ih =>
+    intro fuel dom acc done hi hdom hacc hnd htd hcount
+    have hrest : ∀ j ∈ items, j.ok := fun j hj => hi j (by simp [hj])
+    cases i with
+    | seg g =>
+      have hg : g.ok := hi (Item.seg g) (by simp)
+      have := ih fuel dom (acc ++ [g]) done hrest hdom
+        (by intro g' hg'; rcases List.mem_append.1 hg' with h | h
+            · exact hacc g' h
+            · simp at h; subst h; exact hg)
+        (by
+          cases g with
+          | lit s => simpa [allIds, holeIds_append, holeIds] using hnd
+          | hole J fb => simpa [allIds, holeIds_append, holeIds] using hnd)
+        (by simpa [tplIds] using htd) (by simpa [countTpl] using hcount)
+      simp only [itemsStr, Item.str, clientS]
+      rw [← List.append_assoc dom acc [g]] at this
+      rw [← this, segsStr_append]
+      simp [segsStr]
+    | tpl t =>
+      have ht : ∀ g ∈ t.content, g.ok := hi (Item.tpl t) (by simp)
+      cases fuel with
+      | zero => simp [countTpl] at hcount
+      | succ fuel =>
+        have hnew : t.I ∉ done.map (·.I) := by
+          simp only [tplIds] at htd
+          have := (List.nodup_append.1 htd).2.2
+          intro hmem
+          exact this _ hmem _ (by simp) rfl
+        simp only [itemsStr, Item.str, clientS]
+        rw [← List.append_assoc, applyScriptsAux_block fuel _ done acc t _ hacc ht hnew]
+        have hdA : ∀ g ∈ dom ++ acc, g.ok := by
+          intro g hg; rcases List.mem_append.1 hg with h | h
+          · exact hdom g h
+          · exact hacc g h
+        have hnodup : (holeIds (dom ++ acc)).Nodup := (List.nodup_append.1 hnd).1
+        rw [← segsStr_append, applyOne_segs hdA hnodup]
+        have := ih fuel (substHole t.I t.content (dom ++ acc)) [] (done ++ [t]) hrest
+          (substHole_ok ht hdA) (by simp)
+          (by
+            simp only [List.append_nil]
+            apply nodup_subst
+            simpa [allIds] using hnd)
+          (by simpa [tplIds] using htd) (by simpa [countTpl] using hcount)
+        simpa [segsStr] using this
+
+theorem countTpl_le : ∀ (items : List Item), countTpl items ≤ (itemsStr items).length
+  | [] => Nat.le_refl _
+  | .seg g :: r => by
+    have := countTpl_le r
+    simp only [countTpl, itemsStr, List.length_append]; omega
+  | .tpl t :: r => by
+    have := countTpl_le r
+    have : 1 ≤ t.str.length := by
+      unfold Tpl.str
+      rw [pushStart_eq]
+      have : 1 ≤ tplOpen.length := by decide
+      simp only [List.length_append]; omega
+    simp only [countTpl, itemsStr, Item.str, List.length_append]; omega
+
+/-- **C1** -/
+theorem applyScripts_items (items : List Item) (h : ∀ i ∈ items, i.ok) (hn : (allIds items).Nodup)
+    (ht : (tplIds items).Nodup) : applyScripts (itemsStr items) = segsStr (clientS [] items) := by
+  have := applyScriptsAux_items items (itemsStr items).length [] [] [] h (by simp) (by simp)
+    (by simpa [holeIds] using hn) (by simpa using ht) (countTpl_le items)
+  simpa [applyScripts, segsStr, tplTable] using this
+
 end Leptos.Stream
